@@ -381,6 +381,9 @@ def main():
             if f["mode"] == "fn" and (prop in f.get("own", []) or f["id"] in spec.get("fns", [])):
                 fn_owned.append(dict(unit=r["unit"], fn=f["id"], file=f["file"], lines=f["lines"], sha256=f["sha256"]))
     n_obl = len(clauses) + len(fn_owned)
+    undec_units = {r["unit"] for r in results if r["status"] != "ok"}
+    # obligations of a unit the verifier could not decide are not discharged
+    n_undec = sum(1 for c in clauses if c["unit"] in undec_units) + sum(1 for f in fn_owned if f["unit"] in undec_units)
     failed_keys = set()
     for f in owned_fail:
         mine = [t for t in f["tags"] if t.split(".")[0] == prop]
@@ -390,12 +393,12 @@ def main():
             # owned through the function (an implicit obligation, or a clause tagged for another property in a function
             # this property depends on): the function's obligation counts as failed
             failed_keys.add(("fn", f["fn"]))
-    n_failed = 0
+    n_failed = n_undec
     for c in clauses:
-        if ("tag", c["tag"]) in failed_keys:
+        if ("tag", c["tag"]) in failed_keys and c["unit"] not in undec_units:
             n_failed += 1
     for f in fn_owned:
-        if ("fn", f["fn"]) in failed_keys:
+        if ("fn", f["fn"]) in failed_keys and f["unit"] not in undec_units:
             n_failed += 1
     violations, known_hits = [], []
     for f in owned_fail:
@@ -432,7 +435,17 @@ def main():
     if undecided:
         for r in undecided:
             lines_out.append(f"UNDECIDED property={prop} unit={r['unit']} reason={r['reason']}")
-        rc = 2
+        # The verifier could not decide some unit (lost anchor, construct outside its reach, resource limit). That is
+        # never an alarm. What was explored then is: the units that did verify, and the bounded scenario stand-in, which
+        # always runs in this case. If those all hold the check exits 0 ("held on everything explored"), says UNDECIDED
+        # above and records level "other" with the bounded figures in the evidence; a scenario that fails is a VIOLATION
+        # (below). Only when nothing at all could be explored (the replay did not build or no scenario exists) is the
+        # exit status 2.
+        rc = 0 if (bounded.get("scenarios_run", 0) > 0 and not bounded.get("error")) else 2
+        if rc == 0:
+            lines_out.append(f"BOUNDED-ONLY property={prop} the deductive check is undecided for {len(undecided)} unit(s); "
+                             f"bounded stand-in: {bounded['scenarios_run']} scenarios replayed on the real code, "
+                             f"{len(scen_fail)} failing")
     seenk = set()
     for k in scen_known:
         if k["text"] not in seenk:
@@ -480,7 +493,7 @@ def main():
                 for f in fn_owned[:4]]
     ev = dict(
         stability=[dict(unit=r["unit"], **r["stability"]) for r in results if r.get("stability")],
-        property_id=prop, tier=tier, seed=seed, level="proof" if rc != 2 else "other",
+        property_id=prop, tier=tier, seed=seed, level="proof" if not undecided else "other",
         coverage=dict(
             obligations=n_obl, discharged=n_obl - n_failed,
             checker_cmd="; ".join(sorted({c for r in results for c in r["cmds"]})) or "verus <unit>.rs --output-json",
